@@ -69,6 +69,10 @@ def grammar_cases(rng, f):
         s.replace("\x0156=", "\x0155=A\x0155=B\x0156=").encode("latin-1"),
         s.replace("\x0156=", "\x0178=1\x0179=a\x0149=Z\x0156=").encode("latin-1"),
         f + b"1=evil\x01", f[:-1] + b"\x011=evil\x01",
+        # CPython refuses to convert more than 4300 digits (ValueError): a BodyLength / a tag of 4301 digits is just
+        # another malformed field for decode(silent=True), whatever test guards the int() call
+        sub(r"\x019=\d+", "\x019=" + "1" * 4301), sub(r"\x019=(\d+)", lambda m: "\x019=" + "0" * 4300 + m.group(1)),
+        sub(r"\x0149=", "\x01" + "7" * 4301 + "=x\x0149="),
     ] + early_checksum_cases(f)
 
 
